@@ -885,10 +885,12 @@ fn run_observer(chk: &xs::Check, tier: xs::Tier, pid: &'static str, report: PRep
     let v3 = [0u8, 1, 127];
     let v8 = [0u8, 1, 2, 63, 64, 85, 126, 127];
     // timeouts as (ms, exact microseconds): 0, 2 ms, 2^40 ms, and - where timing is judged (C13) - a
-    // timeout with a sub-millisecond part (1.5 ms)
+    // timeout with a sub-millisecond part (1.5 ms) and one below a millisecond (0.5 ms)
     let mut touts: Vec<(u64, u64)> = TIMEOUTS.iter().map(|t| (*t, t.saturating_mul(1000))).collect();
     if report.c13 {
         touts.push((2, 1500));
+        // below one millisecond: floor(T) in whole milliseconds is 0, T is not
+        touts.push((1, 500));
     }
     for &(t, t_us) in &touts {
         for &c in &channels {
